@@ -35,7 +35,7 @@ type PktCfg struct {
 	Rules     [][]string
 	AdvBatch  int           // variants per adversarial batch (0 = all)
 	Delay     time.Duration // confirmation delay of the Tendermint clients (0 = none)
-	PRules float64 // probability per step of a governance change of one chain's routing rules
+	PRules    float64       // probability per step of a governance change of one chain's routing rules
 	// NoFieldEdits leaves out the port / relay-chain alterations (C13's subject).
 	NoFieldEdits bool
 }
@@ -803,6 +803,10 @@ func (s *PktSim) RulesChange() {
 		a := cloneAction(olds[s.Rng.Intn(len(olds))], "replay-after-rules-change")
 		rebuild(a)
 		s.W.Do(a)
+	}
+	// let the honest relayer carry on for a while, so that whatever the replays started reaches the other chains
+	for n := 0; n < 8 && len(olds) > 0 && !s.W.Stop; n++ {
+		s.RelayOne()
 	}
 }
 
